@@ -5,7 +5,7 @@
    check runs against the implementation. *)
 From Coq Require Import ZArith QArith Qcanon List Reals Ranalysis1.
 From DV Require Import Base.Field Base.LinAlg Base.RInst Base.QcInst Model.BSplineBase Gen.BSpline Model.BSpline
-  Proofs.C14Weights Proofs.C14Ctrl Proofs.C14Eval Proofs.C14Subdiv Proofs.C14Real.
+  Proofs.C14Weights Proofs.C14Ctrl Proofs.C14Place Proofs.C14Eval Proofs.C14Subdiv Proofs.C14Real.
 Import ListNotations.
 Local Open Scope fld_scope.
 
@@ -102,12 +102,7 @@ Theorem C14_ffd_affine_exact_2d :
      at2 c j i = a + bx * cpos K sx i + by_ * cpos K sy j) ->
   nth x (nth y (ev2 dx dy sx sy c mx my) []) 0 =
     aff_val K dy sy y (aff_val K dx sx x a bx) (match dx with 0%nat => by_ | _ => 0 end).
-Proof.
-  intros K Kf Kc dx dy sx sy mx my c a bx by_ x y Hsx Hsy Hx Hy Hc. unfold ev2.
-  rewrite (nth_map_seq (fun y => map (fun x => ev2_at dx dy sx sy c y x) (seq 0 mx))) by exact Hy.
-  rewrite (nth_map_seq (fun x => ev2_at dx dy sx sy c y x)) by exact Hx.
-  exact (ffd_affine_exact_2d K Kf Kc dx dy sx sy mx my c a bx by_ x y Hsx Hsy Hx Hy Hc).
-Qed.
+Proof. exact ffd_affine_exact_2d_nth. Qed.
 Print Assumptions C14_ffd_affine_exact_2d.
 
 Theorem C14_ffd_affine_exact_3d :
@@ -169,6 +164,18 @@ Proof.
   [exact (ctrl_covers m s Hm Hs)|exact (ctrl_minimal m s Hm Hs)|exact (fun x H => ctrl_indices_in_range m s x Hs H)].
 Qed.
 Print Assumptions C14_control_grid_covers.
+
+(* placement: along an axis with origin o and spacing h, control point k of cubic_bspline_control_point_grid lies at the
+   world position of image index (k - 1) s -- one control point before the first sample; every sample lies between
+   control points q+1 and q+2 (q = x / s) and the points q and q+3 (one before, two after the cell start) exist *)
+Theorem C14_control_point_placement :
+  forall (K : fld), is_field K ->
+  (forall o h s k : K, gen_ctrl_origin o h s + gen_ctrl_spacing h s * k = o + h * ((k - 1) * s)) /\
+  (forall m s x : Z, (1 <= s)%Z -> (0 <= x < m)%Z ->
+     let q := (x / s)%Z in
+     ((q + 1 - 1) * s <= x < (q + 2 - 1) * s)%Z /\ (0 <= q)%Z /\ (q + 3 <= gen_ctrl_size m s - 1)%Z).
+Proof. intros K Kf. split; [exact (ctrl_point_position K Kf)|exact ctrl_one_before_two_after]. Qed.
+Print Assumptions C14_control_point_placement.
 
 (* 7. subdivision: the stencils are the two-scale masks 1/8 (1, 4, 6, 4, 1); subdividing any coefficient list leaves
       the spline and its derivatives unchanged on its whole domain (every cell q, both halves, every local
